@@ -13,6 +13,7 @@ import sys
 os.environ["PDT_VERIF"] = "1"
 os.environ.setdefault("PYTHONHASHSEED", "0")
 os.environ.setdefault("POLARS_MAX_THREADS", "2")
+os.environ["RUST_BACKTRACE"] = "0"
 sys.path.insert(0, os.path.dirname(os.path.dirname(os.path.abspath(__file__))))
 
 
